@@ -45,6 +45,10 @@ inline std::uint64_t hash_raw(const Raw& r) {
     return h;
 }
 
+// second pass of the whole search with denormals-are-zero and flush-to-zero set in MXCSR: a mask is not a number, nothing may change (seed C03-d built
+// mask lanes that are subnormal doubles and compared them with 0.0)
+inline std::string& pass_suffix() { static std::string s; return s; }
+
 template<class V>
 struct MaskBFS {
     typedef typename V::mask M;
@@ -61,7 +65,9 @@ struct MaskBFS {
     unsigned max_depth_reached;
     std::uint64_t n_states, n_trans;
 
-    Stat& st(const char* op) {
+    Stat& st(const char* op0) {
+        const std::string opname = std::string(op0) + pass_suffix();
+        const char* op = opname.c_str();
         std::map<std::string, Stat*>::iterator it = stats.find(op);
         if (it != stats.end()) return *it->second;
         Stat& s = new_stat(subject, op, N <= 16 ? "BFS to closure from all 2^N array-constructed states" : "BFS to bounded depth from MASK(N)");
@@ -397,6 +403,18 @@ int main(int argc, char** argv) {
 #else
     vx::for_each_float_type<vx::PerType>();
 #endif
+    {
+        const unsigned saved = _mm_getcsr();
+        _mm_setcsr(saved | 0x8040u);
+        vx::pass_suffix() = "@daz_ftz";
+#if VX_PART < 100
+        vx::for_each_int_type<vx::PerType>();
+#else
+        vx::for_each_float_type<vx::PerType>();
+#endif
+        vx::pass_suffix() = "";
+        _mm_setcsr(saved);
+    }
     if (vx::opt().replay) {
         // a BFS case is replayed by repeating the (deterministic) search for the subject and reporting the named check
         unsigned long long fails = 0;
